@@ -18,7 +18,14 @@ import (
 var c20Ints = []int{math.MinInt64, math.MinInt64 + 1, -3, -1, 0, 1, 3, math.MaxInt64 - 1, math.MaxInt64}
 var c20Floats = []float64{0, -1, 1.5, math.NaN(), math.Inf(1), math.Inf(-1), math.MaxFloat64, 5e-324}
 
+// c20Simple: on finished transactions and closed databases the argument shapes do not matter (every
+// call must fail early); one shape per call keeps those states small.
+var c20Simple bool
+
 func c20Bucket(right string) string {
+	if c20Simple {
+		return right
+	}
 	switch vChoose(4) {
 	case 0:
 		return right
@@ -35,6 +42,12 @@ func c20Bucket(right string) string {
 }
 
 func c20Key(existing []byte) []byte {
+	if c20Simple {
+		if vChoose(2) == 0 {
+			return existing
+		}
+		return nil
+	}
 	switch vChoose(5) {
 	case 0:
 		return existing
@@ -215,6 +228,7 @@ func H_C20_TxCalls() {
 	lo, hi := vParam("lo"), vParam("hi")
 	n := lo + vChoose(hi-lo)
 	vReach("c20.call")
+	c20Simple = vParam("state") == 1 || vParam("state") == 2
 	switch vParam("state") {
 	case 0:
 		tx, err := db.Begin(true)
